@@ -25,14 +25,21 @@ func c16Hit(a int) { c16Cur.hit = a }
 
 var c16ActionNames = []string{"Index", "Create", "Store", "Show", "Edit", "Update", "Delete"}
 
+// c16MW is the one middleware factory of the application: group, resource and per-action middleware are all made by it
+// (closures of one func literal: they differ in what they captured, not in their code)
+//
+//go:noinline
+func c16MW(id int) rux.HandlerFunc {
+	return func(c *rux.Context) { c16Cur.mws = append(c16Cur.mws, id) }
+}
+
 // Uses(): per-action middleware for four of the actions plus a key that is no action
 func c16Uses() map[string][]rux.HandlerFunc {
 	m := map[string][]rux.HandlerFunc{}
 	for _, i := range []int{0, 3, 4, 6} {
-		i := i
-		m[c16ActionNames[i]] = []rux.HandlerFunc{func(c *rux.Context) { c16Cur.mws = append(c16Cur.mws, i) }}
+		m[c16ActionNames[i]] = []rux.HandlerFunc{c16MW(i)}
 	}
-	m["Other"] = []rux.HandlerFunc{func(c *rux.Context) { c16Cur.mws = append(c16Cur.mws, 99) }}
+	m["Other"] = []rux.HandlerFunc{c16MW(99)}
 	return m
 }
 
@@ -65,7 +72,7 @@ func c16Gen(r *Rng, tier string, i int) Sx {
 		mask = (i*37 + r.Intn(3)) % 128
 	}
 	uses := r.Bool()
-	base := r.Pick([]string{"/", "/api/", "", "/v1/admin/", "api", "/a.b/", "/API/v1/", "/Orgs/"})
+	base := r.Pick([]string{"/", "/api/", "", "/v1/admin/", "api", "/a.b/", "/API/v1/", "/Orgs/", "/v1.2/", "/api/v1.0/", "v2."})
 	strict := r.Chance(1, 6)
 	kind := "ptr"
 	if r.Chance(1, 15) {
@@ -90,10 +97,8 @@ func c16Gen(r *Rng, tier string, i int) Sx {
 	if r.Chance(1, 3) {
 		ng, nm = r.Range(1, 3), r.Intn(3)
 	}
-	g := "/" + strings.Trim(strings.Trim(base, "/")+res, "/")
-	if strings.Trim(base, "/") != "" {
-		g = "/" + strings.Trim(base, "/") + res
-	}
+	// where the resource lives: base path + resource name, as a group prefix ("/api/" + "ctl005" -> "/api/ctl005", "api" + "ctl005" -> "/apictl005")
+	g := "/" + strings.Trim(base+res, "/")
 	g0 := g
 	if ng > 0 {
 		g = "/g" + g
@@ -164,9 +169,7 @@ func c16Exec(c Sx) (out Sx) {
 		if len(c.List) >= 10 {
 			ng, nm = c.List[8].Int(), c.List[9].Int()
 		}
-		mk := func(id int) rux.HandlerFunc {
-			return func(c *rux.Context) { c16Cur.mws = append(c16Cur.mws, id) }
-		}
+		mk := c16MW
 		var gm, rm []rux.HandlerFunc
 		for k := 0; k < ng; k++ {
 			gm = append(gm, mk(50+k))
@@ -275,10 +278,7 @@ func c16Exhaustive(emit func(Sx)) {
 				if uses {
 					res = fmt.Sprintf("ctu%03d", mask)
 				}
-				g := "/" + strings.Trim(base, "/") + res
-				if strings.Trim(base, "/") == "" {
-					g = "/" + res
-				}
+				g := "/" + strings.Trim(base+res, "/")
 				var probes []Sx
 				for _, p := range []string{g, g + "/", g + "/create", g + "/7", g + "/7/edit", g + "/create/edit", g + "/7/x", g + "x"} {
 					for _, m := range rtMethods {
